@@ -775,8 +775,11 @@ loop:
 				// if the stream doesn't exist, create it
 
 				if fr.Type() == FrameResetStream {
-					// only send go away on idle stream not on an already-closed stream
-					if fr.Stream() > sc.lastID {
+					// only send go away on idle stream not on an already-closed
+					// stream. A stream that was refused is closed too: a client
+					// that gives up on a request before it has seen the refusal
+					// sends exactly this.
+					if fr.Stream() > sc.lastID && fr.Stream() > highestID {
 						sc.writeGoAway(fr.Stream(), ProtocolError, "RST_STREAM on idle stream")
 					}
 
